@@ -384,6 +384,16 @@ func runSeedGroups(tier string, seed int64) {
 		s := sb.String()
 		seedGroup(spellings(s, false), k%2 == 0, "z", "longtext")
 	}
+	// tens of kilobytes of text that is not in normal form (normalising it takes long enough for collections to
+	// complete meanwhile), derived while the collector is kept busy
+	stopGC := gcStorm()
+	jp := norm.NFC.String(sentence(coverSentences(5, r)[0], 5, "　"))
+	for _, kb := range map[string][]int{"quick": {16, 40}, "thorough": {16, 40, 64, 96, 128}}[tier] {
+		unit := "caf\u00e9 na\u00efve \u30ac\uff4b \uac00 "
+		big := strings.Repeat(unit, kb*1024/len(unit))
+		seedGroup([]variant{{"nfc", norm.NFC.String(big)}, {"nfkd", norm.NFKD.String(big)}, {"nfd", norm.NFD.String(big)}, {"nfc-again", norm.NFC.String(big)}}, true, jp, "bigtext")
+	}
+	stopGC()
 	// F3 probes (known finding): marks of ccc 230 and 220 straddling the 30-non-starter boundary, two orders
 	a := "a" + strings.Repeat("́", 30) + "̖"
 	b := "a" + "̖" + strings.Repeat("́", 30)
@@ -451,6 +461,15 @@ func runCheckGroups(tier string, seed int64) {
 			idx[r.intn(len(idx))] = r.intn(2048)
 			do(lang, idx, "substituted")
 			do(lang, idx[:len(idx)-1-r.intn(2)], "short")
+			// a token that is no list word (at the end, at the start, in the middle), in several spellings: the error
+			// path sees text in normal form and text that is not
+			ws := strings.Split(sentence(cs[r.intn(len(cs))], lang, " "), " ")
+			pos := []int{len(ws) - 1, 0, r.intn(len(ws))}[k%3]
+			ws[pos] = []string{"zzzz", "\uac00\uac01\uac02", "caf\u00e9s", "\u30ac\u30ae\u30b0", "\uff51\uff51"}[r.intn(5)]
+			us := strings.Join(ws, " ")
+			vs := spellings(us, false)
+			vs = append(vs, variant{"nfc+sep3000", norm.NFC.String(strings.Join(ws, "\u3000"))})
+			checkGroup(vs, lang, "unknownword")
 		}
 	}
 	// redundant separators (doubled, leading, trailing) in several spellings: not canonical, but still equivalent
